@@ -784,7 +784,7 @@ class COO(SparseArray, NDArrayOperatorsMixin):  # lgtm [py/missing-equals]
             return self
 
         if self._cache is not None:
-            for ax, value in self._cache["transpose"]:
+            for ax, value in tuple(self._cache["transpose"]):
                 if ax == axes:
                     return value
 
@@ -1076,7 +1076,7 @@ class COO(SparseArray, NDArrayOperatorsMixin):  # lgtm [py/missing-equals]
             raise ValueError(f"cannot reshape array of size {self.size} into shape {shape}")
 
         if self._cache is not None:
-            for sh, value in self._cache["reshape"]:
+            for sh, value in tuple(self._cache["reshape"]):
                 if sh == shape:
                     return value
 
